@@ -8,6 +8,7 @@ package funcs
 import (
 	"fmt"
 	"math"
+	"reflect"
 	"strings"
 	"time"
 
@@ -179,6 +180,44 @@ func setMeasurement(in any, val string) error {
 	pt.Measurement = val
 	return nil
 }
+
+// selfContaining reports whether a script value - a list or a map - contains itself, directly or through
+// its elements (a[0] = a). Such a value has no finite text: fmt and the conversion helpers recurse into it
+// without bound, so the builtins that format or convert values refuse it first.
+func selfContaining(v interface{}) bool {
+	return containsOnPath(v, map[uintptr]struct{}{})
+}
+
+func containsOnPath(v interface{}, path map[uintptr]struct{}) bool {
+	var elems []interface{}
+	switch x := v.(type) {
+	case []interface{}:
+		elems = x
+	case map[string]interface{}:
+		for _, e := range x {
+			elems = append(elems, e)
+		}
+	default:
+		return false
+	}
+	if len(elems) == 0 {
+		return false
+	}
+	p := reflect.ValueOf(v).Pointer()
+	if _, ok := path[p]; ok {
+		return true
+	}
+	path[p] = struct{}{}
+	defer delete(path, p)
+	for _, e := range elems {
+		if containsOnPath(e, path) {
+			return true
+		}
+	}
+	return false
+}
+
+const errSelfContaining = "the value contains itself"
 
 func doCast(result interface{}, tInfo string) (interface{}, ast.DType) {
 	switch strings.ToLower(tInfo) {
